@@ -921,6 +921,7 @@ def check_bundles(world, got, case, latency, viol, stats, rel, lo=1000,
     pool = list(snew)
     ids = {}
     seen_ids = set()
+    servers_used = {pay.get('client', 0) for (_, _, pay), _ in want_new}
     for (t, kind, pay), ev in sorted(want_new, key=lambda x: x[0][0]):
         hit = None
         want_off0 = t + resolve(ev)['sustain']
@@ -928,6 +929,11 @@ def check_bundles(world, got, case, latency, viol, stats, rel, lo=1000,
             if abs(gt - t) > 1e-6:
                 continue
             if gm[1] != pay['instr']:
+                continue
+            if len(servers_used) > 1 and \
+                    (gm[2] >> 26) != pay.get('client', 0):
+                # (two servers are two wires: a creation on the other
+                # server, told by its client's id range, is not this one)
                 continue
             if params_match(gm[5:], pay['params'], rel):
                 # identical creations at the same instant: prefer the one
